@@ -365,6 +365,14 @@ fn run(line: &str) -> String {
             }
             format!("TEXT {}", hex(t1.as_bytes()))
         }
+        "roundtrip" => {
+            let s = parse_shape(a[1]);
+            let t = serde_json::to_string(&s).unwrap();
+            match serde_json::from_str::<JsonShape>(&t) {
+                Ok(s2) => format!("OK {}", shape_str(&s2)),
+                Err(_) => "ERR De".into(),
+            }
+        }
         "de" => match serde_json::from_str::<JsonShape>(&text_arg(a[1])) {
             Ok(s) => format!("OK {}", shape_str(&s)),
             Err(_) => "ERR De".into(),
